@@ -457,3 +457,56 @@ Section Hex.
       rewrite Elin, (A8 (vsub q p8)), Hq. field. exact H7.
   Qed.
 End Hex.
+
+Lemma proj_par_meaning (u nrm x : rvec) :
+  dot u nrm <> 0 ->
+  dot (proj_par u nrm x) nrm = 0 /\
+  (exists t, proj_par u nrm x = vadd x (vscale t u)) /\
+  (dot x nrm = 0 -> proj_par u nrm x = x).
+Proof.
+  intros Hu. unfold proj_par. set (k := dot x nrm / dot u nrm). split; [|split].
+  - assert (E : dot (vsub x (vscale k u)) nrm = dot x nrm - k * dot u nrm).
+    { destruct x as [[a b] c], u as [[d e] f], nrm as [[n1 n2] n3].
+      unfold dot, vsub, vscale, vx, vy, vz; cbn. ring. }
+    rewrite E. unfold k. field. exact Hu.
+  - exists (- k). destruct x as [[a b] c], u as [[d e] f].
+    unfold vadd, vsub, vscale, vx, vy, vz; cbn. apply vec_eq; ring.
+  - intros Z. unfold k. rewrite Z. destruct x as [[a b] c], u as [[d e] f].
+    unfold vsub, vscale, vx, vy, vz; cbn. apply vec_eq; field; exact Hu.
+Qed.
+
+Theorem hex_base_vectors_partial :
+  forall (c u : rvec) (w : nat -> rvec) (l : list nat) (surfs : list rsurf),
+  In l all_listings ->
+  u <> (0, 0, 0) ->
+  (forall i, (i < 6)%nat -> carries u w (pl surfs i) (side_at l i)) ->
+  (forall i j, (i < j < 6)%nat -> (i / 2 <> j / 2)%nat ->
+               cross (snd (pl surfs i)) (snd (pl surfs j)) <> (0, 0, 0)) ->
+  (forall i j, (i < j < 6)%nat -> (i / 2 <> j / 2)%nat ->
+     let k1 := (2 * other_group i j)%nat in
+     if adjb_of_listing l i j
+     then inside surfs k1 (wv w (vertex_of l (i, j))) /\ inside surfs (k1 + 1) (wv w (vertex_of l (i, j)))
+     else forall X, on_plane X (pl surfs i) -> on_plane X (pl surfs j) ->
+                    ~ (inside surfs k1 X /\ inside surfs (k1 + 1) X)) ->
+  (forall k, wv w (k + 3) = vsub (vscale 2 c) (wv w k)) ->
+  (List.length surfs = 6%nat ->
+     hexLatticeBaseVectors RS surfs =
+     Ok [proj_par u u (across c w (side_at l 0)); proj_par u u (across c w (side_at l 2))]) /\
+  (List.length surfs = 8%nat ->
+   dot u (snd (pl surfs 6)) <> 0 -> dot u (snd (pl surfs 7)) <> 0 ->
+   exists tau,
+     hexLatticeBaseVectors RS surfs =
+     Ok [proj_par u (snd (pl surfs 6)) (across c w (side_at l 0));
+         proj_par u (snd (pl surfs 6)) (across c w (side_at l 2));
+         vscale tau u] /\
+     (forall lam, snd (pl surfs 6) = vscale lam (snd (pl surfs 7)) ->
+        tau = dot (vsub (fst (pl surfs 6)) (fst (pl surfs 7))) (snd (pl surfs 6)) / dot u (snd (pl surfs 6)) /\
+        forall q, on_plane q (pl surfs 7) -> on_plane (vadd q (vscale tau u)) (pl surfs 6))).
+Proof.
+  intros c u w l surfs Hl Hu Hc Hi Hs Hsym. split.
+  - intros L. apply (hex_base_vectors_six c u w l surfs Hl Hu Hc Hi Hs (or_introl L)); try assumption.
+    unfold top_nrm. unfold rsurf in *. rewrite L. cbn [Nat.eqb]. apply (dot_uu u Hu).
+  - intros L H7 H8.
+    apply (hex_base_vectors_eight c u w l surfs Hl Hu Hc Hi Hs (or_intror L)); try assumption.
+    unfold top_nrm. unfold rsurf in *. rewrite L. cbn [Nat.eqb]. exact H7.
+Qed.
